@@ -199,7 +199,10 @@ def case_arith(c):
             try:
                 udr = level_utils.get_unit_drift_rate(be, N, I)
                 wantu = df_x / dt_x
-                if abs(abs(F(udr)) - wantu) > wantu * Fr(1, 10**12) or (c.get('asc', True) and udr < 0):
+                # signed like the backend's own channel bandwidth (negative for descending bands): a one-pixel shift in a
+                # descending product is a negative frequency step -- "agrees with the backend for the same inputs"
+                sgn_bw = 1 if be.chan_bw > 0 else -1
+                if abs(abs(F(udr)) - wantu) > wantu * Fr(1, 10**12) or (udr > 0) != (sgn_bw > 0):
                     V('unit_drift_rate', 'get_unit_drift_rate=%r exact %r' % (udr, float(wantu)),
                       site='level_utils.get_unit_drift_rate')
             except Exception as e:
@@ -341,7 +344,6 @@ def run(ctx):
              '(two in a row per backend).  Every constructor case is non-trivial (distinct parameter tuple); '
              'evaluations counts individual record()/helper evaluations',
         assumptions=['durations within 1e-9 blocks of a block boundary may resolve either way (as the property states)',
-                     'the sign of get_unit_drift_rate for descending bands is not specified and not compared',
                      'params_from_backend tchans compared away from exact multiples of dt'],
         coverage_extra={'bounds': {'sample_rate': RATES, 'num_branches': BRANCHES, 'num_taps': TAPS,
                                    'spb_multipliers': SPB_MULT, 'num_blocks': nbs}})
